@@ -50,7 +50,7 @@ def load_known():
 
 
 def obligation_name(pid, job, o, tags):
-    tag = tags.get((o["file"], o["line"]))
+    tag = o.get("tag") or tags.get((o["file"], o["line"]))
     if tag is None:
         # CBMC-generated safety obligation: name it by function and class
         cls = (o["id"] or "").split(".")
@@ -127,7 +127,7 @@ def run_property(pid, tier, use_cache=True, njobs=16, only=None, verbose=False):
         n_vac = 0
         for o in r.get("obligations", []):
             name, tag = obligation_name(pid, j, o, tags)
-            is_tagged = (o["file"], o["line"]) in tags
+            is_tagged = (o["file"], o["line"]) in tags or bool(o.get("tag"))
             if (o.get("desc") or "").startswith("vacuity control"):
                 # must-fail control behind a precondition: SUCCESS here means the contract is vacuous
                 n_vac += 1
@@ -148,7 +148,8 @@ def run_property(pid, tier, use_cache=True, njobs=16, only=None, verbose=False):
                     rel_ok += 0
                 else:
                     violations.append((name, j, o, r))
-        if r["status"] in ("pass", "fail") and j.engine in ("E1", "E2") and n_vac == 0:
+        if r["status"] in ("pass", "fail") and j.engine in ("E1", "E2") and n_vac == 0 and \
+                not (j.part and j.part[0] != 0):
             vacuity_problems.append("%s: no vacuity control in harness" % j.name)
         n_obl += rel_n
         n_ok += rel_ok
